@@ -61,6 +61,8 @@ deriving DecidableEq, Repr
 inductive PyVal
   | atom (a : Atom)
   | seq (k : SeqKind) (items : List Atom)
+  /-- a list (or tuple) of tuples, e.g. `[(100, 150), (50, 50)]` -/
+  | rows (k : SeqKind) (items : List (List Atom))
   /-- `FractionValue(number, fraction)`; `frac` is the exact value of the fraction part -/
   | fv (number frac : Rat)
   | qty (q : Qty)
@@ -103,18 +105,39 @@ def atomsEq : List Atom → List Atom → Bool
   | a :: as, b :: bs => atomEq a b && atomsEq as bs
   | _, _ => false
 
+/-- an element of `tuple(values)`: a plain value or a tuple of plain values -/
+inductive Elem
+  | atom (a : Atom)
+  | row (r : List Atom)
+deriving DecidableEq, Repr
+
+/-- `x == y` between two elements (a tuple never equals a number, a string or `None`) -/
+def elemEq : Elem → Elem → Bool
+  | .atom a, .atom b => atomEq a b
+  | .row r, .row t => atomsEq r t
+  | _, _ => false
+
+/-- `tuple(xs) == tuple(ys)` -/
+def elemsEq : List Elem → List Elem → Bool
+  | [], [] => true
+  | a :: as, b :: bs => elemEq a b && elemsEq as bs
+  | _, _ => false
+
 /-- `hash(x)` works (a dict lookup with the value inside the key raises `TypeError` otherwise):
 lists, ndarrays and `FractionValue`s are unhashable -/
 def PyVal.hashable : PyVal → Bool
   | .atom _ => true
   | .seq .tuple _ => true
   | .seq _ _ => false
+  | .rows .tuple _ => true
+  | .rows _ _ => false
   | .fv _ _ => false
   | .qty _ => true
 
 /-- `len(x)` -/
 def pyLen : PyVal → Except ErrKind Int
   | .seq _ items => .ok items.length
+  | .rows _ items => .ok items.length
   | .atom (.str s _) => .ok (Sym.bytes s).length
   | _ => .error .type
 
@@ -130,9 +153,10 @@ def pyFloat : PyVal → Except ErrKind Rat
   | _ => .error .type
 
 /-- `tuple(x)`: a string gives its characters -/
-def pyTuple : PyVal → Except ErrKind (List Atom)
-  | .seq _ items => .ok items
-  | .atom (.str s _) => .ok ((Sym.bytes s).map (fun b => Atom.str b Option.none))
+def pyTuple : PyVal → Except ErrKind (List Elem)
+  | .seq _ items => .ok (items.map Elem.atom)
+  | .rows _ items => .ok (items.map Elem.row)
+  | .atom (.str s _) => .ok ((Sym.bytes s).map (fun b => Elem.atom (Atom.str b Option.none)))
   | _ => .error .type
 
 /-- the truth value of `some_str == x`, as used by `if self._unit == to_unit:`; a comparison with an
@@ -247,15 +271,35 @@ def obtainNonStr (db : Db) (category : Atom) : Except ErrKind Qty :=
     | .error e => .error e
     | .ok ci => newQuantity db c ci.defaultUnit
 
+/-- `ObtainQuantity(unit, category)` once the unit is a plain value (every atom is hashable, so the
+cache key can be built) -/
+def obtainAtom (db : Db) (unit category : Atom) : Except ErrKind Qty :=
+  match unit with
+  | .str u _ =>
+    match category with
+    | .none => obtainDefault db u
+    | c => newQuantity db c u
+  | _ => obtainNonStr db category
+
+/-- `ObtainQuantity` with a list/tuple of tuples as unit (the "composing units" form
+`[(unit, exponent), …]`): a single pair with exponent 1 is "a simple case" and stands for its first
+component; anything else needs a list/tuple category, which the constructors never pass -/
+def obtainRows (db : Db) (rows : List (List Atom)) (category : Atom) : Except ErrKind Qty :=
+  match rows with
+  | [row] =>
+    match row with
+    | a :: b :: _ => if atomEq b (.num 1 false) then obtainAtom db a category else .error .assertion
+    | _ => .error .index                         -- `unit[0][1]`
+  | _ => .error .assertion
+
 /-- `ObtainQuantity(unit, category)` -/
 def obtainQuantity (db : Db) (unit : PyVal) (category : Atom) : Except ErrKind Qty :=
   match unit with
   | .seq .list items => .error (obtainSeqErr items)
   | .seq .tuple items => .error (obtainSeqErr items)
-  | .atom (.str u _) =>
-    match category with
-    | .none => obtainDefault db u
-    | c => newQuantity db c u
+  | .rows .list rows => obtainRows db rows category
+  | .rows .tuple rows => obtainRows db rows category
+  | .atom a => obtainAtom db a category
   | v => if !v.hashable then .error .type       -- the cache key
          else obtainNonStr db category
 
@@ -436,6 +480,7 @@ def PyVal.isValueFor (cls : Cls) : PyVal → Bool
   | .atom (.str _ _) => false
   | .qty _ => false
   | .seq .tuple _ => cls != .scalar
+  | .rows .tuple _ => cls != .scalar
   | _ => true
 
 /-- "Support for creating a scalar as Scalar(10, 'm') / Scalar(10, 'm', 'length')": the arguments
@@ -486,13 +531,16 @@ def abstractInit (db : Db) (cls : Cls) (category value : PyVal) (unit : Atom) : 
     | (cat, v, u) => initNamed db cls cat v u
 
 /-- `Scalar.__init__`: the `(value, unit)` tuple form first -/
+def scalarTupleForm (db : Db) (items : List PyVal) (value : PyVal) (unit : Atom) : Except ErrKind Obj :=
+  if !(value.isNone && unit.isNone) then .error .assertion else
+  match items with
+  | [a, b] => abstractInit db .scalar a b .none
+  | _ => .error .value                           -- tuple unpacking
+
 def scalarInit (db : Db) (category value : PyVal) (unit : Atom) : Except ErrKind Obj :=
   match category with
-  | .seq .tuple items =>
-    if !(value.isNone && unit.isNone) then .error .assertion else
-    match items with
-    | [a, b] => abstractInit db .scalar (.atom a) (.atom b) .none
-    | _ => .error .value                         -- tuple unpacking
+  | .seq .tuple items => scalarTupleForm db (items.map PyVal.atom) value unit
+  | .rows .tuple rows => scalarTupleForm db (rows.map (PyVal.seq .tuple)) value unit
   | c => abstractInit db .scalar c value unit
 
 /-- `Cls(a1, a2, a3)` (positional or by keyword: the parameters are the same) -/
@@ -512,7 +560,7 @@ def arrayEq (q1 : Qty) (v1 : PyVal) (q2 : Qty) (v2 : PyVal) : Except ErrKind Boo
   | .ok t1 =>
     match pyTuple v2 with
     | .error e => .error e
-    | .ok t2 => .ok (atomsEq t1 t2 && q1 == q2 && q1.unit == q2.unit)
+    | .ok t2 => .ok (elemsEq t1 t2 && q1 == q2 && q1.unit == q2.unit)
 
 /-- `a == b` for two value objects.  `FixedArray` is a subclass of `Array` that overrides `__eq__`,
 so for `Array == FixedArray` Python asks the FixedArray first (and gets `False`). -/
